@@ -20,6 +20,9 @@ type pubParams struct {
 	SettleP   float64
 	BigP      float64
 	RestartAt int // publish index at which to close and adopt (0 = never)
+	Snaps     bool // take stop-point snapshots
+	Prelude   [3]int // completed publishes per level before the episode (wrap positioning)
+	NoClose   bool // leave the client open (the caller closes)
 }
 
 func sizeOf(c *run.Ctx, bigP float64) int {
@@ -73,6 +76,37 @@ func runPubWorkload(c *run.Ctx, pp pubParams) (*Episode, *pubAnalysis, []*sim.Pu
 		return ep, nil, nil
 	}
 	ep.D.StartReader()
+	if pp.Prelude[1]+pp.Prelude[2] > 0 {
+		ep.W.Mu.Lock()
+		ep.F.Off = true
+		ep.W.DataCap = 48
+		ep.W.Mu.Unlock()
+		for lvl := 1; lvl <= 2; lvl++ {
+			for i := 0; i < pp.Prelude[lvl]; i++ {
+				if p := ep.D.Publish(lvl, false, 2); p.Err != nil {
+					ep.W.WaitUntil(sim.StepTimeout, ep.D.AllClosed)
+					if p = ep.D.PublishPub(p); p.Err != nil {
+						c.Violate("prelude-failed", fmt.Sprintf("prelude publish %d level %d: %v", i, lvl, p.Err), nil)
+						return ep, nil, nil
+					}
+				}
+			}
+		}
+		if !ep.W.WaitUntil(4*sim.StepTimeout, ep.D.AllClosed) {
+			c.Inconclusive("prelude did not complete")
+			c.Spoiled()
+			return ep, nil, nil
+		}
+		ep.W.Mu.Lock()
+		ep.F.Off = false
+		ep.W.DataCap = 1 << 16
+		ep.W.Mu.Unlock()
+	}
+	if pp.Snaps {
+		ep.W.Mu.Lock()
+		ep.W.TakeSnaps = true
+		ep.W.Mu.Unlock()
+	}
 
 	var all []*sim.Pub
 	collect := func() {
@@ -146,7 +180,7 @@ func runPubWorkload(c *run.Ctx, pp pubParams) (*Episode, *pubAnalysis, []*sim.Pu
 	}
 	collect()
 	a := analyzePubs(ep, all, final)
-	if !ep.D.CloseAndWait() {
+	if !pp.NoClose && !ep.D.CloseAndWait() {
 		c.Spoiled()
 	}
 	return ep, a, all
